@@ -502,9 +502,25 @@ func (p *player) step(s ScStep) {
 		close(start)
 		wg.Wait()
 	case "read_err":
-		p.rec.Put(M{"e": "ReadErr", "ep": s.Ep, "peer": s.Peer, "t": p.ms()})
+		want := "injected"
+		var rerr error = errInjected
+		switch s.Err {
+		case "deadline":
+			want, rerr = "deadline", os.ErrDeadlineExceeded
+		case "net_timeout":
+			want, rerr = "deadline", &net.OpError{Op: "read", Net: "tcp", Err: os.ErrDeadlineExceeded}
+		case "eof":
+			want, rerr = "eof", io.EOF
+		case "unexpected_eof":
+			want, rerr = "unexpected_eof", io.ErrUnexpectedEOF
+		case "closed_pipe":
+			want, rerr = "closed_pipe", io.ErrClosedPipe
+		case "net_closed":
+			want, rerr = "net_closed", net.ErrClosed
+		}
+		p.rec.Put(M{"e": "ReadErr", "ep": s.Ep, "peer": s.Peer, "cause": want, "t": p.ms()})
 		if ctl := p.ctl(s.Ep); ctl != nil {
-			ctl.injectReadErr(errInjected)
+			ctl.injectReadErr(rerr)
 		} else {
 			p.mu.Lock()
 			peer := s.Peer
@@ -731,6 +747,20 @@ func (p *player) stopHang(ep int) {
 	}
 }
 
+// framesChanged: how many of the frames delivered in events no longer are what they were when they were delivered
+func (p *player) framesChanged() int {
+	n := 0
+	p.mu.Lock()
+	kept := append([]keptFrame{}, p.kept...)
+	p.mu.Unlock()
+	for _, k := range kept {
+		if frameDigest(k.fr) != k.digest {
+			n++
+		}
+	}
+	return n
+}
+
 func gomavlibGoroutines() int {
 	buf := make([]byte, 1<<20)
 	n := runtime.Stack(buf, true)
@@ -846,5 +876,6 @@ func (p *player) final(baseline int, evClosed bool) {
 	}
 	p.mu.Unlock()
 	p.rec.Put(M{"e": "Final", "goroutines_left": left, "stacks": stacks, "ports_rebound": rebound, "custom_close": closes,
-		"events_closed": evClosed, "conns_not_released": notReleased, "serial_not_closed": serialOpen, "t": p.ms()})
+		"events_closed": evClosed, "conns_not_released": notReleased, "serial_not_closed": serialOpen,
+		"frames_changed_after_delivery": p.framesChanged(), "t": p.ms()})
 }
